@@ -42,6 +42,29 @@ def terminated(obs, oid, kind, h, stim):
     return recv_closed and send_closed
 
 
+def abandoned_after_cancel(obs, sid):
+    """True when the partial frame left for `sid` at the end of the script is one the peer had begun *before* a local cancellation of that
+    stream and then abandoned: the only way a legal peer leaves a frame unfinished. (A script that simply ends inside a frame, or a frame
+    begun after the stream was already cancelled, says nothing about the library.)"""
+    start = None
+    for i, (m, _) in enumerate(obs['steps']):
+        if not m.startswith('RECV:'):
+            continue
+        f = m.split(':')
+        if f[1] not in ('PAYLOAD', 'REQUEST_RESPONSE', 'REQUEST_FNF', 'REQUEST_STREAM', 'REQUEST_CHANNEL') or int(f[2]) != sid:
+            continue
+        if f[3][0] == '1':
+            if start is None:
+                start = i
+        else:
+            start = None
+    if start is None:
+        return False
+    oids = [oid for oid, s in enumerate(obs['sids']) if s == sid]
+    cancels = [i for i, (m, _) in enumerate(obs['steps']) if m.split(':')[0] in ('SCN', 'FCN') and len(m.split(':')) > 1 and m.split(':')[1].isdigit() and int(m.split(':')[1]) in oids]
+    return bool(cancels) and min(cancels) > start
+
+
 class C10(EngineProp):
     id = 'C10'
     lean_modules = ['RSocketModel.Props.C10']
@@ -84,7 +107,7 @@ class C10(EngineProp):
             if how:
                 if sid in table:
                     fails.append({'signature': 'terminated-stream-still-registered:' + kind, 'what': '%s %d (stream %d) terminated but is still in the stream table' % (kind, oid, sid)})
-                if sid in cache and how != 'lost':
+                if sid in cache and how != 'lost' and abandoned_after_cancel(obs, sid):
                     fails.append({'signature': 'terminated-stream-has-partial-frame:' + kind, 'what': '%s %d (stream %d) terminated but a partial frame remains cached' % (kind, oid, sid)})
         if obs['final'].get('oneway_pending_settled'):
             fails.append({'signature': 'one-way-request-not-finished-after-send', 'what': 'the frames of %s have been written, the send queue is empty, and the awaitable is still pending (the interaction never finishes)' % obs['final']['oneway_pending_settled']})
